@@ -29,6 +29,9 @@ pub(crate) struct CycleDetectingIter<'a, const STOP_AT_CYCLES: bool> {
     next: u64,
     cycle_found: bool,
     mark_phase: bool,
+    // (cell holding a PStrLoc, byte offset it held): the reversed pointer of a
+    // string lives in its tail cell, so the byte offset must be remembered
+    pstr_locs: Vec<(usize, u64)>,
 }
 
 impl<'a, const STOP_AT_CYCLES: bool> CycleDetectingIter<'a, STOP_AT_CYCLES> {
@@ -43,6 +46,7 @@ impl<'a, const STOP_AT_CYCLES: bool> CycleDetectingIter<'a, STOP_AT_CYCLES> {
             next,
             cycle_found: false,
             mark_phase: true,
+            pstr_locs: Vec::new(),
         }
     }
 
@@ -214,6 +218,7 @@ impl<'a, const STOP_AT_CYCLES: bool> CycleDetectingIter<'a, STOP_AT_CYCLES> {
                         }
 
                         self.heap[tail_idx].set_forwarding_bit(true);
+                        self.pstr_locs.push((self.current, h as u64));
 
                         self.next = self.heap[tail_idx].get_value();
                         self.heap[tail_idx].set_value(self.current as u64);
@@ -337,6 +342,15 @@ impl<'a, const STOP_AT_CYCLES: bool> CycleDetectingIter<'a, STOP_AT_CYCLES> {
             self.heap[self.current].set_value(self.next);
             self.next = self.current as u64;
             self.current = temp as usize;
+
+            // back at a cell that held a PStrLoc: restore the string's byte
+            // offset, not the index of its tail cell
+            if let Some(&(loc, h)) = self.pstr_locs.last() {
+                if loc == self.current && self.heap[loc].get_tag() == HeapCellValueTag::PStrLoc {
+                    self.pstr_locs.pop();
+                    self.next = h;
+                }
+            }
         }
 
         if self.current == self.start {
